@@ -200,6 +200,12 @@ func c13Run(in []string) []string {
 	for i, v := range c.ids {
 		ids[i] = hash.BytesToEvent(v.FillBytes(make([]byte, 32)))
 	}
+	// share of cases where the caller's contract holds (the events passed are the ones named)
+	contract := len(ids) == len(parents)
+	for i := 0; contract && i < len(ids); i++ {
+		contract = ids[i] == parents[i].ID()
+	}
+	vu.Stat("parents_of=" + vu.B(contract))
 	var e dag.Event
 	fill := func(me dag.MutableEvent) {
 		me.SetEpoch(idx.Epoch(c.epoch))
